@@ -271,9 +271,6 @@ Proof.
     + rewrite cos_plus. field; auto.
 Qed.
 
-Lemma fmul_cancel_l A B X : feq d (fmul d A B) fid -> feq d (fmul d A (fmul d B X)) X.
-Proof. intros H. rewrite fmul_assoc, H. apply fmul_id_l. Qed.
-
 (* the transformed basis element after a sub-segment of length a: entries acquire the phases u_n conj(u_m) *)
 Lemma BT_after_subsegment ev V Q Cm a :
   feq d (fmul d (fadj (toF V)) (toF V)) fid ->
@@ -285,7 +282,7 @@ Proof.
   intros HV.
   rewrite !toF_transform_by_unitary. rewrite !toF_mmul, !toF_madj, !toF_mmul, toF_segment_propagator.
   rewrite !fadj_mul, !fadj_invol_feq. rewrite <- !fmul_assoc.
-  rewrite !(fmul_cancel_l _ _ _ HV). rewrite ?HV, ?fmul_id_r. reflexivity.
+  rewrite !(fmul_cancel_l d _ _ _ HV). rewrite ?HV, ?fmul_id_r. reflexivity.
 Qed.
 
 Lemma BT_after_subsegment_entry ev V Q Cm a n m : (n < d)%nat -> (m < d)%nat ->
@@ -725,4 +722,25 @@ Proof.
   intros m n Hm Hn. unfold foi_x.
   destruct m as [|[|m]]; [| |lia]; (destruct n as [|[|n]]; [| |lia]); unfold vg, vget; simpl;
     unfold Rabs; match goal with |- context [Rcase_abs ?x] => destruct (Rcase_abs x) end; lra.
+Qed.
+
+(* =====================================================================================
+   Infidelity-type integrals (util.integrate = trapezoidal rule) under the change of time unit:
+   integrand S'F' = lam * S F on the grid omega / lam  gives the same integral
+   ===================================================================================== *)
+Lemma trapz_cons2 f0 f1 fr x0 x1 xr :
+  trapz RO (f0 :: f1 :: fr) (x0 :: x1 :: xr) = (f1 + f0) * (x1 - x0) / (1 + 1) + trapz RO (f1 :: fr) (x1 :: xr).
+Proof. reflexivity. Qed.
+Lemma time_scaling_trapz lam : 0 < lam -> forall f x,
+  trapz RO (smul lam f) (sdiv lam x) = trapz RO f x.
+Proof.
+  intros Hl. induction f as [|f0 fr IH]; intros x; [reflexivity|].
+  destruct fr as [|f1 fr']; [destruct x; reflexivity|].
+  destruct x as [|x0 xr]; [reflexivity|]. destruct xr as [|x1 xr']; [reflexivity|].
+  change (smul lam (f0 :: f1 :: fr')) with (lam * f0 :: lam * f1 :: smul lam fr').
+  change (sdiv lam (x0 :: x1 :: xr')) with (x0 / lam :: x1 / lam :: sdiv lam xr').
+  rewrite !trapz_cons2.
+  change (lam * f1 :: smul lam fr') with (smul lam (f1 :: fr')).
+  change (x1 / lam :: sdiv lam xr') with (sdiv lam (x1 :: xr')).
+  rewrite IH. f_equal. field. lra.
 Qed.
